@@ -16,7 +16,10 @@ CERTS = [
     dict(LOAD="init", TICK="loop", PRIVATE="priv", VAR="v", INT="i", STORAGE="stor"),
     dict(LOAD="l0ad", TICK="t1ck", PRIVATE="__p__", VAR="var.s", INT="const-int", STORAGE="s_t"),
 ]
-POSITIONS = ["if", "ifelse", "elif", "elif_mid", "elif2", "while", "dowhile", "for", "forp"]
+POSITIONS = ["if", "ifelse", "elif", "elif_mid", "elif2", "while", "dowhile", "for", "forp",
+             "expand", "async_while", "async_for", "async_forp"]
+# `$if` (macro if): covered only on a tree that has fixes/C03-macro-if-lines.patch (see c03.py macro_if_supported)
+MACRO_POSITIONS = ["mif", "mif1", "mif_expand"]
 SPELL = {"==": "SEq2", "===": "SEq3", "=": "SEq1", "!=": "SNe", "!==": "SNe3", "<": "SLt", "<=": "SLe", ">": "SGt", ">=": "SGe"}
 COP = {"==": "eq", "===": "eq", "=": "eq", "!=": "ne", "!==": "ne", "<": "lt", "<=": "le", ">": "gt", ">=": "ge"}
 BODY = 'say "B1"; say "B2";'
@@ -185,7 +188,7 @@ def formula_text(f):
 
 def wrap_source(position):
     """does parse_condition receive the bracket token (True) or the bare token list (False)?"""
-    return position != "for"
+    return position not in ("for", "async_for")
 
 
 def program_for(c):
@@ -208,6 +211,20 @@ def program_for(c):
         stmt = f"for ($i_ = 0; {cond}; $i_++) {{ {BODY} }}"
     elif pos == "forp":
         stmt = f"for ($i_ = 0; ({cond}); $i_++) {{ {BODY} }}"
+    elif pos == "expand":          # every command of the batch carries its own copy of the lowered condition
+        stmt = f"if ({cond}) expand {{ {BODY} }}"
+    elif pos == "async_while":     # the test lives in a function of its own (async/0), re-scheduled by the loop body
+        stmt = f"async while ({cond}) {{ {BODY} }} 1t;"
+    elif pos == "async_for":
+        stmt = f"async for ($i_ = 0; {cond}; $i_++) {{ {BODY} }} 2t;"
+    elif pos == "async_forp":
+        stmt = f"async for ($i_ = 0; ({cond}); $i_++) {{ {BODY} }} 2t;"
+    elif pos == "mif":             # `$if`: the lines that mention a macro variable `$(x)` must be macro lines, the others not
+        stmt = f"$if ({cond}) {{ {BODY} }}"
+    elif pos == "mif1":
+        stmt = f'$if ({cond}) {{ say "B1"; }}'
+    elif pos == "mif_expand":
+        stmt = f"$if ({cond}) expand {{ {BODY} }}"
     else:
         raise ValueError(pos)
     return f"function f() {{ {stmt} }}"
@@ -350,6 +367,46 @@ def random_formula(rng, fac, d, p_leaf=0.08):
     return {"op": "and" if r < 0.55 else "or", "args": [random_formula(rng, fac, d - 1, p_leaf + 0.17) for _ in range(n)]}
 
 
+def macroize(f, mode):
+    """the formula with plain variables `$name` renamed to macro variables `$(name)`:
+    mode 0 = the first such operand, 1 = the last, 2 = all, 3 = none"""
+    import copy
+    import re
+    f = copy.deepcopy(f)
+    slots = []
+    for a in atoms_of(f):
+        if re.fullmatch(r"\$[a-z]+", a["lhs"]):
+            slots.append((a, "lhs"))
+        if a["kind"] == "cmp" and a["rhs"][0] == "score" and re.fullmatch(r"\$[a-z]+", a["rhs"][1]):
+            slots.append((a, "rhs"))
+    pick = slots[:1] if mode == 0 else slots[-1:] if mode == 1 else slots if mode == 2 else []
+    for a, side in pick:
+        if side == "lhs":
+            a["lhs"] = "$(" + a["lhs"][1:] + ")"
+        else:
+            a["rhs"][1] = "$(" + a["rhs"][1][1:] + ")"
+    return f
+
+
+def macro_cases(rng, quick):
+    """`$if` positions: every shape with <= 2 connectives (3 for thorough) x the three forms, macro operands rotating"""
+    cases = []
+    n = 0
+    for si, s in enumerate(s for k in range(0, 3 if quick else 4) for s in shapes(k)):
+        fac = AtomFactory(rng, offset=si, kinds=["truthy", "cmp_lit", "cmp_score", "matches"])
+        f0 = fill(s, fac)
+        for pos in MACRO_POSITIONS:
+            n += 1
+            cases.append(mk_case(macroize(f0, n % 4), pos, si % len(CERTS)))
+    v = lambda name: A({"kind": "truthy", "lhs": name})
+    for j, f in enumerate([Or(v("$(a)"), v("$b")), Or(v("$a"), v("$(b)")), Or(v("$a"), And(v("$b"), Or(v("$(c)"), v("$d")))),
+                           Or(Not(And(v("$(a)"), v("$b"))), v("$c")), And(Or(v("$a"), v("$b")), Or(v("$(c)"), v("$(d)"))),
+                           Not(And(Or(v("$(a)"), v("$b")), Not(And(v("$c"), v("$(d)"))))), Or(v("$a"), v("$b")), v("$(a)"), v("$a")]):
+        for pos in MACRO_POSITIONS:
+            cases.append(mk_case(f, pos, j % len(CERTS)))
+    return cases
+
+
 def mk_case(f, position, cert, tokens=None, canonical=True, bang_space=False):
     toks = tokens_of(f) if tokens is None else tokens
     wrapped = wrap_source(position)
@@ -476,3 +533,163 @@ def gen_cases(rng, tier):
                 cases.append(mk_case(f, "if", 1))
                 cases.append(mk_case(Or(Not(f), A({"kind": "truthy", "lhs": "$c"})), "while", 2))
     return cases
+
+
+# ------------------------------------------------------------------ `if (...) expand { batch }` programs (round 3)
+# Program trees in c04_gen's representation (its source printer, source-level interpreter and mcvm comparison are reused):
+#   ("expand", cond, [statement, ...]) = every statement is guarded by its own fresh evaluation of cond.
+
+def expand_items(rng, tier):
+    """packs `f` (+ helpers g, h) whose body contains expand statements with batches of >= 2 commands in which a
+    NON-LAST command evaluates another condition that needs `__logic__` flags (nested if, brace-less if, chain, loop,
+    nested expand) or calls a function that does, or changes the variables the outer condition reads.
+    item = dict(prog=, more=, order=, cert=, stream=, outer=, kinds=)"""
+    import c04_gen as G
+    quick = tier == "quick"
+    pa, pb, pc, pd = (G.pos(v, i) for i, v in enumerate(["$a", "$b", "$c", "$d"]))
+    outers = {
+        "or": G.OR(pa, pb),
+        "or_and": G.AND(G.OR(pa, pb), G.A("$m", "!=", 7)),
+        "and_or": G.AND(G.A("$m", "!=", 7), G.OR(pb, pa)),
+        "notand": G.NOT(G.AND(G.neg("$a", 1), G.neg("$b", 2))),          # !(!a && !b)  ==  a || b, one flag, unless-read
+        "or_or": G.OR(pa, G.OR(pb, G.A("$m", "==", 7))),
+        "two_flags": G.AND(G.OR(pa, pb), G.OR(pb, pa, G.A("$m", "==", 7))),
+        "atomic": pa,
+        "and": G.AND(pa, G.A("$m", "!=", 7)),
+    }
+    inners = [G.OR(pc, pd), G.NOT(G.AND(G.neg("$c"), G.neg("$d"))), G.AND(G.OR(pd, pc), G.A("$m", "!=", 7)), pc,
+              G.OR(pc, G.AND(pd, G.OR(pa, pc)))]
+    g_body = [("if", [([("f", G.OR(pc, pd))], [("say", "g")])], None)]                  # g evaluates a flagged condition
+    h_body = [("if", [([("f", G.OR(pd, pc))], [("say", "h1"), ("say", "h2")])], [("say", "h3")]), ("set", "$s", 2)]
+    more = {"g": g_body, "h": h_body}
+
+    def first_cmd(kind, nm, j):
+        inner = [("f", inners[j % len(inners)])]
+        if kind == "if_inline":
+            return ("if", [(inner, [nm.say("i")])], None)
+        if kind == "if_fn":
+            return ("if", [(inner, [nm.say("i"), nm.say("i")])], None)
+        if kind == "if_braceless":
+            return ("if", [(inner, G.NB([nm.say("i")]))], None)
+        if kind == "if_set":
+            return ("if", [(inner, [("set", "$s", 5)])], None)
+        if kind == "call_g":
+            return ("call", "g")
+        if kind == "call_h":
+            return ("call", "h")
+        if kind == "chain":
+            return ("if", [(inner, [nm.say("c")]), ([("f", G.OR(pd, G.A("$m", "==", 7)))], [nm.say("c"), nm.say("c")])], [nm.say("c")])
+        if kind == "loop":
+            lv = nm.loopvar()
+            return ("for", [("set", lv, 0)], [("atom", (lv, "<", 2)), ("or", [[("$c", "==", 1)], [("$d", "!=", 1)]])], [("add", lv, 1)], [nm.say("l")])
+        if kind == "nested_expand":
+            return ("expand", inner, [nm.say("n"), ("set", "$t", 1), nm.say("n")])
+        if kind == "clear_outer":
+            return ("set", "$a", 0)
+        if kind == "clear_both":
+            return ("expand", [("atom", ("$m", "!=", 9))], [("set", "$a", 0), ("set", "$b", 0)])
+        if kind == "set_outer":
+            return ("set", "$b", 1)
+        if kind == "say":
+            return nm.say("p")
+        raise ValueError(kind)
+
+    FIRST = ["if_inline", "if_fn", "if_braceless", "if_set", "call_g", "call_h", "chain", "loop", "nested_expand",
+             "clear_outer", "clear_both", "set_outer", "say"]
+
+    def later_cmd(kind, nm):
+        if kind == "set":
+            return ("set", "$s", 1)
+        if kind == "say":
+            return nm.say("q")
+        return ("if", [([("atom", ("$d", "!=", 5))], [nm.say("r")])], None)      # an `execute` that is merged
+
+    items = []
+    n = 0
+    for oi, (ok, outer) in enumerate(outers.items()):
+        for fi, fk in enumerate(FIRST):
+            for li, lk in enumerate(["set", "say", "if"]):
+                if quick and (oi + fi + li) % 3 and ok not in ("or", "notand"):
+                    continue
+                n += 1
+                nm = G.Names()
+                batch = [first_cmd(fk, nm, n), later_cmd(lk, nm)]
+                if n % 3 == 0:
+                    batch = [nm.say("o")] + batch
+                if n % 4 == 0:
+                    batch = batch + [later_cmd(["say", "set", "if"][li], nm)]
+                prog = [("expand", [("atom", outer[1])] if outer[0] == "A" else [("f", outer)], batch)]
+                items.append(dict(prog=prog, more=more, order=["f", "g", "h"], cert=n % len(CERTS), stream="expand-batch",
+                                  outer=ok, kinds=[fk, lk], cap=64, values={"$m": (0, 7)}))
+    # rich outer conditions, random batches, expand statements inside chains and loops and after each other
+    V = ["$a", "$b", "$c", "$d"]
+    for i in range(60 if quick else 600):
+        nm = G.Names()
+        outer = G.rich(G.RICH_KINDS[i % len(G.RICH_KINDS)], V, i) if i % 2 else G.random_formula(rng, V, rng.choice([2, 3]))
+        k = rng.choice([2, 2, 3, 4])
+        batch = [first_cmd(rng.choice(FIRST), nm, rng.randrange(9)) if rng.random() < 0.6 else later_cmd(rng.choice(["set", "say", "if"]), nm)
+                 for _ in range(k)]
+        ex = ("expand", [("atom", outer[1])] if outer[0] == "A" else [("f", outer)], batch)
+        t = i % 4
+        if t == 0:
+            prog = [ex, nm.say("end")]
+        elif t == 1:
+            lv = nm.loopvar()
+            prog = [("for", [("set", lv, 0)], [("atom", (lv, "<", 2))], [("add", lv, 1)], [ex, nm.say("z")])]
+        elif t == 2:
+            prog = [("if", [(G.or_cond("$d", "$c"), [ex]), (G.atomic_cond("$a"), [nm.say("y")])], [nm.say("x"), ex]), nm.say("end")]
+        else:
+            ex2 = ("expand", G.or_cond("$c", "$a"), [later_cmd("set", nm), first_cmd(rng.choice(FIRST[:9]), nm, i), later_cmd("say", nm)])
+            prog = [ex, ex2]
+        items.append(dict(prog=prog, more=more, order=["f", "g", "h"], cert=i % len(CERTS), stream="expand-random",
+                          outer="rich" if i % 2 else "random", kinds=[], cap=64, values={"$m": (0, 7)}))
+    return items
+
+
+def expand_text_term(it, cert, fns):
+    """Run.C03.xcase for an item whose `f` is exactly one expand statement over commands the text model covers
+    (one-line commands, nested lone ifs with a one-line or two-say body); None otherwise.
+    fns = real functions {path: text} or None when the compiler refused."""
+    import c04_gen as G
+    prog = it["prog"]
+    if len(prog) != 1 or prog[0][0] != "expand":
+        return None
+    _, cond, batch = prog[0]
+    var, priv = cert["VAR"], cert["PRIVATE"]
+
+    def line(s):
+        if s[0] == "say":
+            return f"say {s[1]}"
+        if s[0] == "set":
+            return f"scoreboard players set {s[1]} {var} {s[2]}"
+        if s[0] == "call":
+            return f"function TEST:{s[1]}"
+        return None
+
+    def toks(c):
+        return coq_tokens([P(tokens_of(G.f_c03(G.cond_formula(c))))], cert)
+    xs = []
+    n_if_else = 0
+    for s in batch:
+        l = line(s)
+        if l is not None:
+            xs.append(f"XLine {coq_str(l)}")
+            continue
+        if s[0] != "if" or len(s[1]) != 1 or s[2] is not None:
+            return None
+        c, body = s[1][0]
+        if len(body) == 1 and line(body[0]) is not None:
+            tail = line(body[0])
+        elif len(body) == 2 and all(x[0] == "say" for x in body):
+            tail = f"function TEST:{priv}/if_else/{n_if_else}"
+            n_if_else += 1
+        else:
+            return None
+        xs.append(f"XIf {toks(c)} {coq_str(tail)}")
+    if fns is None:
+        real, real_fns = "<refused>", []
+    else:
+        real = fns.get("f", "<missing function f>")
+        real_fns = [(f"TEST:{k}", v) for k, v in sorted(fns.items()) if k.startswith(priv + "/expand/")]
+    fl = "; ".join(f"({coq_str(k)}, {coq_str(v)})" for k, v in real_fns)
+    return f"mkXCase {names_term(cert)} {toks(cond)} [{'; '.join(xs)}] {coq_str(real)} [{fl}]"
